@@ -1,0 +1,7 @@
+//go:build !verif
+
+package time
+
+import "time"
+
+func verifNow() (time.Time, bool) { return time.Time{}, false }
